@@ -306,11 +306,14 @@ def check_qs_join_leave(ctx, unit):
              "or decides whether this agent still owes an acknowledgement is made with the domain mutex held", 2)
     ctx.rule("E.count-before-reset", "online()/offline(): the agent count is adjusted before any store that re-arms the ack "
              "count from it", 2)
-    for name in ("online", "offline"):
-        for f in _one(unit, AGENT + "::" + name):
+    ctors = [f_ for f_ in unit.functions if f_.uq == AGENT + "::<ctor>" and f_.blocks]
+    for name in ("online", "offline", "<ctor>"):
+        for f in (_one(unit, AGENT + "::" + name) if name != "<ctor>" else ctors):
             la = LockAnalysis(f)
             acc = RA.accesses(f)
             lds = [a for a in acc if a.op == "load" and a.obj and a.obj[-1] == "_qs_counter" and not in_assert(a.node)]
+            if not lds and name == "<ctor>":
+                continue        # a constructor that joins through online() samples nothing itself
             if not lds:
                 raise AnalysisBroken("anchor vanished: period-counter load in %s" % f.qn)
             bad = []
@@ -325,6 +328,8 @@ def check_qs_join_leave(ctx, unit):
                      ("the period counter is sampled at %s outside the domain mutex: it can advance before the agent count "
                       "changes, and the agent then acknowledges a period that never counted it" % bad[0]) if bad else
                      "%d counter loads, all inside the critical section" % len(lds), f)
+            if name == "<ctor>":
+                continue
             adj = [n for n in f.events() if write_of(n) and write_of(n)[0] and write_of(n)[0][-1] == "_num_agents"]
             rearm = [a for a in acc if a.op == "store" and a.obj and a.obj[-1] == "_agents_to_ack"]
             ok = bool(adj) and all(any(f.dominates(x.id, a.node.id) for x in adj) for a in rearm)
